@@ -24,10 +24,14 @@ MANIFEST = dict(
          'samples / repeated values change neither result, incl. concrete invariance of the maximum absolute load); N10_le_N50_le_N90 (P_RAM: knee '
          'shifted by 10^(lg f25 - (0.8 beta - 2) 0.08)) and N10_le_N50_le_N90_RAJ (life * 10^((lg f25 - (0.8 beta - 2) 0.155) |1/d|)) from beta '
          'antitone; contracts_satisfiable + instance_not_degenerate; row layout of per-point data (Assess/Layout.v): knee_rows_tiled_pointwise (rows ordered '
-         '(hysteresis, point): tiling the per-point knees gives row h*n+i the knee of point i), knee_rows_repeated_refuted, uniform_knee_hides_layout.  The stage contracts (cycle structure under scaling / refinement, damage '
+         '(hysteresis, point): tiling the per-point knees gives row h*n+i the knee of point i), knee_rows_repeated_refuted, uniform_knee_hides_layout; decisions of the HCM in a batch '
+         '(Assess/Decide.v: every branch is decided by comparing two absolute loads / load extents of the FIRST point with an absolute tolerance and applied to all points): '
+         'hcm_exact_decision_scale_invariant, hcm_relative_tolerance_scale_invariant, hcm_decision_transfers_when_separated (the first point\'s decision is the decision of point i when the compared '
+         'quantities are equal or differ by more than the tolerance at both points), hcm_absolute_tolerance_not_scale_invariant_refuted (for every absolute tolerance > 0 and every pair of different '
+         'quantities some positive load ratio of the first point makes the batch decide differently from the point itself), hcm_separation_satisfiable.  The stage contracts (cycle structure under scaling / refinement, damage '
          'parameter not smaller for larger loads, curve N antitone in P and isotone in the knee, accumulation antitone, gamma_L, beta antitone, which '
-         'aggregator the code uses, which point\'s knee a row of the batch table uses) are checked on the implementation\'s stage outputs on every run; the property itself (P_RAM and P_RAJ, lifetime and '
-         'infinite-life verdict) is decided by relations between assessment calls on every run.',
+         'aggregator the code uses, which point\'s knee a row of the batch table uses, hystereses of a batch point = those of its single assessment wherever the compared loads are separated at the first point and at the point) are checked on the implementation\'s stage outputs on every run; the property itself (P_RAM and P_RAJ, lifetime and '
+         'infinite-life verdict) is decided by relations between assessment calls on every run, including batches in which one point (the first, or a later one) is almost unloaded (load ratio down to 1e-10, thorough 1e-15).',
     note=common.TB_NOTE + 'the stages (HCM, binned notch law, P_RAM/P_RAJ, curves, accumulation) are abstract in Coq: their contracts are checked on sampled '
          'stage outputs, not proved here (C04/C05/C07/C09 model them); the P_RAJ crack-opening loop and its class summation are outside the model except for '
          'the dependence on the shared class maximum; float rounding is outside the theorems (relations compared at 1e-9 relative).',
@@ -1056,7 +1060,10 @@ def run(res):
                     'axioms: ClassicalDedekindReals.sig_forall_dec, sig_not_dec, functional_extensionality_dep (Coq Reals), Classical_Prop.classic']
     res.assumptions += ['float rounding is outside the theorems; relations are compared at 1e-9 relative, class-edge effects (1e-3..1e-1) are reported, not absorbed',
                         'loads of all points of a batch are positive multiples of one sequence (precondition of the vectorised assessment)',
-                        'P_RAJ crack-opening loop / class summation not modelled beyond the dependence on the shared class maximum']
+                        'P_RAJ crack-opening loop / class summation not modelled beyond the dependence on the shared class maximum',
+                        'separation of the compared load pairs (obligation model decisions at the first point, class hcm_abs_tolerance_first_node) is computed on a superset of what the HCM compares '
+                        '(absolute loads of all samples and 0, extents between any two of them), with a factor 4 on the tolerance for rounding; batches with an almost unloaded point are assessed with '
+                        'calculate_P_RAJ=False in the quick tier (the P_RAJ branch of such batches raises for one sequence in three: known finding praj-batch-near-zero-point)']
     res.cov['rule'] = ('cases: sequence = library test sequence (round numbers, loads on class edges) | the same jittered by <= 3 % and rescaled | random (2..16 samples, '
                        'amplitude 120..420, some with offset) | ties (random with repeated / nearly repeated extremes); parameters: load distribution normal/lognormal/blanket/none, P_A from the FKM table or free, P_L, R_m, material group, '
                        'R_z, K_p, c, G (0.05..30 1/mm: mild and sharp notches); per case the relations batch (2..5 points, ratios 0.2..3, uniform or per-point G with different component '
